@@ -88,7 +88,7 @@ def build(kind: str, sc: Scene):
         for a in range(3):
             e.chop(a, count=2)
         return [e], [[e]], [], 8, None
-    if kind in ("revolve_placed", "revolved_ring_placed", "wedge_placed"):
+    if kind in ("revolve_placed", "revolved_ring_placed", "wedge_placed", "revolved_shape_placed"):
         # built where it is simplest and then PLACED with the library's own transformations, as user scripts do: every arc
         # of a revolved operation stays an arc about the (transformed) axis
         from .c07 import rot as rot_own, scl as scl_own
@@ -98,6 +98,17 @@ def build(kind: str, sc: Scene):
             for a in range(3):
                 e.chop(a, count=2)
             nverts = 8
+        elif kind == "revolved_shape_placed":
+            # the sketch-based shape: a grid of faces revolved about an axis in its plane
+            axis_p, axis_d = [0.0, -0.5, 0.0], [1.0, 0.0, 0.0]
+            nx, ny = rng.choice([1, 2]), rng.choice([1, 2])
+            e = cb.RevolvedShape(cb.Grid([0.2, 0.4, 0], [1.8, 1.5, 0], nx, ny), rng.uniform(0.4, 1.4), axis_d, axis_p)
+            for op in e.grid[0]:
+                op.chop(0, count=2)          # a Grid has no chop lists of its own: one row, one column, one tier
+            for row in e.grid:
+                row[0].chop(1, count=2)
+            e.operations[0].chop(2, count=2)
+            nverts = 2 * (nx + 1) * (ny + 1)
         elif kind == "wedge_placed":
             axis_p, axis_d = [0.0, 0.0, 0.0], [1.0, 0.0, 0.0]
             e = cb.Wedge(cb.Face([[0, 0.5, 0], [1.5, 0.5, 0], [1.4, 1.2, 0], [0.1, 1.0, 0]]))
@@ -213,6 +224,38 @@ def build(kind: str, sc: Scene):
             e = cb.NJoint(P([0, 0, 0]), P([2, 0, 0]), P([0, 0.4, 0]), int(kind[-1]))
         chop_round(e)
         return [e], [[e]], [], 0, None
+    if kind == "connector":
+        # two hexahedra with arbitrary (rotational) corner numberings, the second one offset and turned; the connector joins the
+        # two sides that face each other: four vertices in common with each, a right-handed block in between
+        def numbered(pts8):
+            img = hexref.SYMS[rng.choice(sorted(hexref.ROT_IDX))]
+            q = [pts8[img[k]] for k in range(8)]
+            return cb.Loft(cb.Face(q[:4]), cb.Face(q[4:]))
+        unit = [[float(c) for c in xyz] for xyz in hexref.XYZ]
+        axis = rng.randrange(3)
+        sign = rng.choice([-1, 1])
+        off = [rng.uniform(-0.3, 0.3) for _ in range(3)]
+        off[axis] = sign * rng.uniform(2.5, 4.0)
+        from .c07 import rot as rot_own
+        turn, tax = rng.uniform(-0.4, 0.4), [rng.uniform(-1, 1) for _ in range(3)]
+        second = [rot_own(p, turn, tax, [0.5, 0.5, 0.5]) for p in unit]
+        # Connector looks at its loft from "above" the first operation (along its bottom -> top direction) with the second
+        # operation as the ceiling: when the first operation's own top faces the second one the two directions coincide and
+        # the numbering it produces is arbitrary (bottom/top end up on lateral sides). Connector is not among the shapes the
+        # property lists, so only the well-posed configurations are generated: first operation's axis across the connection.
+        for _ in range(50):
+            a = numbered([P(p) for p in unit])
+            up = vsub(list(a.top_face.center), list(a.bottom_face.center))
+            conn = sc.V([1.0 if i == axis else 0.0 for i in range(3)])
+            if abs(vdot(up, conn)) < 0.3 * vnorm(up) * vnorm(conn):
+                break
+        b = numbered([P(vadd(p, off)) for p in second])
+        for o in (a, b):
+            for ax in range(3):
+                o.chop(ax, count=2)
+        c = cb.Connector(a, b)
+        c.chop(2, count=2)
+        return [a, b, c], [[a], [b], [c]], [(0, 2, 4), (1, 2, 4), (0, 1, 0)], 16, None
     # ---- chains
     if kind.startswith("chain_"):
         cyl = cb.Cylinder(P([0, 0, 0]), P([0, 0, h]), P([r, 0, 0]))
@@ -272,10 +315,13 @@ def build(kind: str, sc: Scene):
     raise ValueError(kind)
 
 
-KINDS = ["box", "extrude", "revolve", "revolve_placed", "revolved_ring_placed", "wedge_placed", "cylinder", "semicylinder", "frustum", "elbow", "extruded_ring", "revolved_ring", "hemisphere",
+KINDS = ["box", "extrude", "revolve", "revolve_placed", "revolved_ring_placed", "wedge_placed", "revolved_shape_placed", "cylinder", "semicylinder", "frustum", "elbow", "extruded_ring", "revolved_ring", "hemisphere",
          "shell", "onecore", "fourcore", "halfdisk", "oval", "wrapped", "splinedisk", "halfsplinedisk", "quartersplinedisk", "splinering",
          "extruded_stack", "revolved_stack", "transformed_stack", "ljoint", "tjoint", "njoint3", "njoint4", "njoint5",
          "chain_a", "chain_b", "chain_c", "expand", "fill_contract", "ring_chain"]
+# "connector" can be built (see build()) but is not judged: Connector is not among the shapes C11 lists, and it fails in ways that
+# are outside every listed property - with the first operation's own top facing the second one its bottom/top end up on lateral
+# sides, and for some mutually turned pairs its re-orientation raises DegenerateGeometryError (DESIGN.md section 7)
 
 
 def record(ctx: Ctx, rid: int, kind: str, rng: random.Random, write: bool = True) -> Optional[dict]:
